@@ -30,7 +30,10 @@ structure P where
 
 /-- atomic writes -/
 inductive W where
-  | putScripts (scripts : List (Nat × Nat))        -- the FILTER_SCRIPTS batch of set_scripts
+  | putScripts (scripts : List (Nat × Nat))        -- a FILTER_SCRIPTS batch alone (not issued any more)
+  /-- the single batch of `update_filter_scripts`: the script set, the block number to filter
+  from (if it changes) and the removal of every matched-blocks record -/
+  | setBatch (scripts : List (Nat × Nat)) (minF : Option Nat)
   | putMinF (n : Nat)
   | clearRecords
   | putRecord (r : Record)
@@ -47,6 +50,7 @@ def insertRecord (r : Record) : List Record → List Record
 
 def applyW (p : P) : W → P
   | .putScripts s => { p with scripts := s }
+  | .setBatch s m => { p with scripts := s, minF := m.getD p.minF, records := [] }
   | .putMinF n => { p with minF := n }
   | .clearRecords => { p with records := [] }
   | .putRecord r => { p with records := insertRecord r p.records }
@@ -78,23 +82,32 @@ def minOf : List Nat → Option Nat
     | none => some x
     | some m => some (min x m)
 
-/-- the writes of `update_filter_scripts`, in issue order (the genesis re-filter when a block
-number is 0 is an `Index`-layer matter) -/
+/-- the genesis block is filtered right after the batch when a given block number is 0 -/
+def genesisWrites (cmd : Cmd) (arg : List (Nat × Nat)) : List W :=
+  if cmd ≠ .del && arg.any (·.2 = 0) then [.filterBlock 0] else []
+
+/-- the writes of `update_filter_scripts`, in issue order: one batch, then the genesis block -/
 def setScriptsWrites (p : P) (cmd : Cmd) (arg : List (Nat × Nat)) : List W :=
   match cmd with
   | .all =>
     let scripts := arg.foldl upsert []
-    [.putScripts scripts] ++ (match minOf (arg.map (·.2)) with | some m => [.putMinF m] | none => []) ++ [.clearRecords]
+    [.setBatch scripts (minOf (arg.map (·.2)))] ++ genesisWrites cmd arg
   | .part =>
     if arg.isEmpty then []
     else
       let scripts := arg.foldl upsert p.scripts
       let m := (minOf (arg.map (·.2))).getD 0
-      let target := if p.scripts.isEmpty then m else min m p.minF
-      [.putScripts scripts, .putMinF target, .clearRecords]
+      -- the pending records are cleared, so the kept scripts have to be filtered again from
+      -- their own recorded numbers
+      let kept := p.scripts.filter (fun e => !arg.any (·.1 = e.1))
+      let target := if p.scripts.isEmpty then m
+        else (minOf ([m] ++ kept.map (·.2) ++ [p.minF])).getD m
+      [.setBatch scripts (some target)] ++ genesisWrites cmd arg
   | .del =>
     if arg.isEmpty then []
-    else [.putScripts (p.scripts.filter (fun e => !arg.any (·.1 = e.1))), .clearRecords]
+    else
+      let kept := p.scripts.filter (fun e => !arg.any (·.1 = e.1))
+      [.setBatch kept ((minOf (kept.map (·.2))).map (fun m => min m p.minF))]
 
 /-! ### a batch of block filters -/
 
@@ -113,11 +126,12 @@ def filtersWrites (p : P) (start k : Nat) (matched : List Nat) (volatileEmpty : 
 /-! ### completion of the earliest matched-block batch (all its blocks downloaded) -/
 
 /-- the writes of the `SendBlock` handler once every block of the earliest record has arrived:
-the record is dropped, the blocks are indexed in number order, the scripts' numbers are raised -/
+the blocks are indexed in number order, the scripts' numbers are raised, and only then the record
+is dropped -/
 def blocksWrites (p : P) : List W :=
   match p.records with
   | [] => []
-  | r :: _ => [.delRecord r.start] ++ (r.matched.map W.filterBlock) ++ [.updateBlockNumber (r.start + r.count - 1)]
+  | r :: _ => (r.matched.map W.filterBlock) ++ [.updateBlockNumber (r.start + r.count - 1), .delRecord r.start]
 
 /-! ### fork rollback (`commit_prove_state`) -/
 
@@ -130,6 +144,15 @@ def forkWrites (p : P) (forkNumber : Nat) : List W :=
   dropped ++ [.rollback rb]
 
 /-! ### driver -/
+
+/-- the name of the write site in `storage.rs` that issues the write -/
+def siteOf : W → String
+  | .putMinF _ => "put_min_filtered_block_number"
+  | .putRecord _ => "put_matched_blocks"
+  | .delRecord _ => "delete_matched_blocks"
+  | _ => "commit_batch"
+
+def showWrites (ws : List W) : String := "writes " ++ " ".intercalate (ws.map siteOf)
 
 def showRec (r : Record) : String := s!"({r.start},{r.count},{r.matched})"
 
@@ -175,17 +198,17 @@ def stepLine (p : P) (line : String) : P × String :=
      | some c, some arg =>
        let cmd := if c = 0 then Cmd.all else if c = 1 then Cmd.part else Cmd.del
        let ws := setScriptsWrites p cmd (parsePairs arg)
-       (applyWs p (cut ws), s!"writes {ws.length}")
+       (applyWs p (cut ws), showWrites ws)
      | _, _ => (p, "bad-op"))
   | ["filters", s, k, ve] :: m :: _ =>
     (match s.toNat?, k.toNat?, ve.toNat?, natsOf m with
      | some s, some k, some ve, some m =>
        let ws := filtersWrites p s k m (ve = 1)
-       (applyWs p (cut ws), s!"writes {ws.length}")
+       (applyWs p (cut ws), showWrites ws)
      | _, _, _, _ => (p, "bad-op"))
-  | ["blocks"] :: _ => let ws := blocksWrites p; (applyWs p (cut ws), s!"writes {ws.length}")
+  | ["blocks"] :: _ => let ws := blocksWrites p; (applyWs p (cut ws), showWrites ws)
   | ["fork", n] :: _ => (match n.toNat? with
-      | some n => let ws := forkWrites p n; (applyWs p (cut ws), s!"writes {ws.length}")
+      | some n => let ws := forkWrites p n; (applyWs p (cut ws), showWrites ws)
       | none => (p, "bad-op"))
   | ["updnum", n] :: _ => (match n.toNat? with
       | some n => (applyW p (.updateBlockNumber n), "ok") | none => (p, "bad-op"))
